@@ -82,8 +82,10 @@ theorem simS_step (n : Nat) (hC : SimC n) : SimS (n+1) := by
       rw [hr] at h0
       obtain ⟨fl, e1, he, hp⟩ := Rel_some h0
       rw [he]
-      have := wrap_nonneg (k := k) (run_pos hr) (s := s) (s0 := { s with exit := {} }) ⟨rfl, rfl, rfl⟩ hp
-      exact Rel_mono (fun _ _ _ h => h.mono_q (by simp [tailOkS])) this
+      rcases hp with hp | hp
+      · have := wrap_nonneg (k := k) (run_pos hr) (s := s) (s0 := { s with exit := {} }) ⟨rfl, rfl, rfl⟩ hp
+        exact Rel_mono (fun _ _ _ h => h.mono_q (by simp [tailOkS])) this
+      · exact wrap_pending (run_pos hr) hp
   | true =>
     rw [run_stmt_neg n c s hns, sem_stmt_neg]
     have hcases : pureCmd c = true ∨ (K.e = false ∧ supNegSub K c = true) := by
@@ -114,7 +116,10 @@ theorem simS_step (n : Nat) (hC : SimC n) : SimS (n+1) := by
           · have := hC K { k with ign := true } sub (.subsh p) { s with exit := {} } hst' hc'
               (hd0.ctx_of_not_e he) hl hnp rfl
             rw [absEnv_exit] at this
-            exact Rel_mono (fun _ _ _ h => (h.ctx_of_not_e he).mono_q (fun h => h.elim)) this
+            refine Rel_mono (fun _ _ _ h => ?_) this
+            rcases h with h | h
+            · exact (h.ctx_of_not_e he).mono_q (fun h => h.elim)
+            · exact absurd h.2.1 (by simp [softCmd])
           · intro fl e1 h
             exact sem_subsh_norm h
     obtain ⟨h0, hnorm⟩ := key
